@@ -52,6 +52,8 @@ def leaf(cls, shape, rs, regime, key):
     from flowjax import bijections as bj
     n = int(np.prod(shape)) if shape else 1
     sc = {"init": 0.0, "perturbed": 0.8, "negscale": 0.8, "wild": 3.0}[regime]
+    var = {"init": 0, "perturbed": 1, "negscale": 2, "wild": 3}[regime]      # qualitatively different options are covered
+    # deterministically (one per regime), never left to the seed
     if cls == "Affine":
         b = bj.Affine(jnp.asarray(rs.normal(size=shape)), jnp.asarray(rs.uniform(0.3, 2.5, size=shape)))
         if regime == "negscale":
@@ -66,19 +68,19 @@ def leaf(cls, shape, rs, regime, key):
         d = shape[0]
         A = rs.normal(size=(d, d))
         A[np.arange(d), np.arange(d)] = rs.uniform(0.4, 2.0, size=d)
-        return bj.TriangularAffine(jnp.asarray(rs.normal(size=d)), jnp.asarray(A), lower=bool(rs.integers(2)))
+        return bj.TriangularAffine(jnp.asarray(rs.normal(size=d)), jnp.asarray(A), lower=(var % 2 == 0))
     if cls in ("Exp", "SoftPlus", "Tanh", "Identity", "Flip"):
         return getattr(bj, cls)(shape)
     if cls == "LeakyTanh":
-        return bj.LeakyTanh(float(rs.choice([1.0, 3.0, 0.5])), shape)
+        return bj.LeakyTanh([1.0, 3.0, 0.5, 2.0][var], shape)
     if cls == "Permute":
         return bj.Permute(rs.permutation(n).reshape(shape))
     if cls in ("RationalQuadraticSpline", "RationalQuadraticSplineOffCentre"):
         ivs = [2, 3, (-2.0, 3.0)] if cls == "RationalQuadraticSpline" else [(0.5, 4.0), (-7.0, -1.0), (1.0, 1.5)]   # not containing 0
-        b = bj.RationalQuadraticSpline(knots=int(rs.integers(2, 6)), interval=ivs[int(rs.integers(len(ivs)))])
+        b = bj.RationalQuadraticSpline(knots=int(rs.integers(2, 6)), interval=ivs[var % len(ivs)])
         return perturb(b, rs, sc if sc else 0.0)
     if cls == "VmapSpline":          # a spline on every element of an array
-        sp = bj.RationalQuadraticSpline(knots=int(rs.integers(2, 5)), interval=[2, (-2.0, 3.0)][int(rs.integers(2))])
+        sp = bj.RationalQuadraticSpline(knots=int(rs.integers(2, 5)), interval=[2, (-2.0, 3.0), (0.5, 4.0)][var % 3])
         sp = perturb(sp, rs, max(sc, 0.6))
         b = sp
         for ext in reversed(shape):
@@ -101,7 +103,7 @@ def leaf(cls, shape, rs, regime, key):
         b = bj.BlockAutoregressiveNetwork(key, dim=shape[0], cond_dim=None, depth=1, block_dim=2)
         return perturb(b, rs, sc * 0.5)
     if cls == "BlockAutoregressiveNetworkDeep":      # square hidden blocks (depth >= 2, block_dim >= 2), depth 0, a condition
-        depth, bd, cd = [(2, 3, None), (3, 2, 2), (0, 1, None), (2, 2, 2)][int(rs.integers(4))]
+        depth, bd, cd = [(2, 3, None), (3, 2, 2), (0, 1, None), (2, 2, 2)][var]
         b = bj.BlockAutoregressiveNetwork(key, dim=shape[0], cond_dim=cd, depth=depth, block_dim=bd)
         return perturb(b, rs, max(sc, 0.3) * 0.5)
     if cls == "Reshape":
@@ -331,7 +333,12 @@ def specs(tier: str, seed: int, tlc_cases: list | None = None):
     thorough = tier == "thorough"
     out = []
     for cls in LEAF_CLASSES:
-        regimes = ["init", "perturbed"] + (["negscale"] if cls in ("Affine", "Reshape") else []) + (["wild"] if cls == "BlockAutoregressiveNetworkDeep" else [])
+        regimes = ["init", "perturbed"]
+        if cls in ("Affine", "Reshape", "LeakyTanh", "RationalQuadraticSpline", "RationalQuadraticSplineOffCentre", "VmapSpline",
+                   "BlockAutoregressiveNetworkDeep"):
+            regimes.append("negscale")
+        if cls == "BlockAutoregressiveNetworkDeep":
+            regimes.append("wild")
         for reg in regimes:
             for rep_ in range(2 if thorough else 1):
                 out.append({"src": "leaf", "cls": cls, "regime": reg, "seed": rng.randrange(2**30)})
